@@ -37,7 +37,7 @@ ASSUMPTIONS = [
     "set_metadata=None only with schemas that permit writing mn/vr (policy itself is C32); if no row carries "
     "mn the case is discarded as 'not written'",
     "inside_outside mean/variance tolerance: |d mn| <= 1e-12*tmax, |d vr| <= 1e-12*vr + 1e-24*tmax^2 "
-    "(calibration: worst observed 2.3e-16*tmax and 4e-16 relative over 3000 cases)",
+    "(calibration on the unchanged tree, 5 seeds x 440 cases: worst observed 1.2e-16*tmax and 5.6e-16 relative)",
     "fit.mutation_mapping() gives the node each input mutation ends on (C22 owns its correctness)",
 ]
 
@@ -47,7 +47,7 @@ ALL_FAMILIES = G.METADATA_FAMILIES
 
 def budget(tier):
     if tier == "quick":
-        return dict(examples=110, shards=4)
+        return dict(examples=110, shards=4, time_s=1800)  # cap only: cold-JIT audits on a loaded machine
     return dict(examples=800, shards=16)
 
 
